@@ -41,6 +41,11 @@ pub struct MacroImpl {
     pub body: String,
     pub literals: Vec<String>,
     pub mentions_self: bool,
+    /// what the impl computes, when it has one of the recognised forms ("" otherwise):
+    ///   "sha256-digest-eq"    eq:   Sha256::digest(<self.0>) == Sha256::digest(<other.0>)   (also `.eq(&..)`, either order)
+    ///   "sha256-digest-hash"  hash: Sha256::digest(<self.0>).hash(state)   (also `Hash::hash(&Sha256::digest(..), state)`)
+    /// <x.0> = x.0 | &x.0 | x.0.as_bytes() | x.0.as_str() ..; both digests may carry the same view (`.as_slice()`, `[..]`)
+    pub shape: String,
 }
 
 #[derive(Clone, Debug)]
@@ -300,6 +305,91 @@ fn literals_in(ts: TokenStream, out: &mut Vec<String>, mentions_self: &mut bool)
     }
 }
 
+/// `Sha256::digest(<x.0 as bytes>)` [with a view `.as_slice()` / `[..]`] → (x, view)
+fn digest_of(e: &syn::Expr) -> Option<(String, String)> {
+    use crate::mini::{strip_ref, text_view};
+    let mut e = strip_ref(e);
+    let mut view = String::new();
+    loop {
+        match e {
+            syn::Expr::MethodCall(m) if m.args.is_empty() && (m.method == "as_slice" || m.method == "as_ref") => {
+                view = "slice".into();
+                e = strip_ref(&m.receiver);
+            }
+            syn::Expr::Index(i) if canon(&i.index) == ".." => {
+                view = "slice".into();
+                e = strip_ref(&i.expr);
+            }
+            _ => break,
+        }
+    }
+    if let syn::Expr::Call(c) = e {
+        if canon(&c.func) == "Sha256::digest" && c.args.len() == 1 {
+            // x.0 | x.0.as_bytes() | x.0.as_str() ..
+            let mut a = text_view(&c.args[0]);
+            if let syn::Expr::MethodCall(m) = a {
+                if m.args.is_empty() && m.method == "as_bytes" {
+                    a = text_view(&m.receiver);
+                }
+            }
+            if let syn::Expr::Field(f) = a {
+                if let (Some(x), syn::Member::Unnamed(ix)) = (crate::mini::ident_of(&f.base), &f.member) {
+                    if ix.index == 0 {
+                        return Some((x, view));
+                    }
+                }
+            }
+        }
+    }
+    None
+}
+
+fn impl_shape(f: &syn::ImplItemFn) -> String {
+    let body = match crate::mini::expr_body(&f.block) {
+        Some(b) => b,
+        None => match f.block.stmts.as_slice() {
+            // `X;` as the only statement of a unit function
+            [syn::Stmt::Expr(e, Some(_))] => e.clone(),
+            _ => return String::new(),
+        },
+    };
+    let params = crate::mini::param_names(&f.sig);
+    let e = crate::mini::strip(&body);
+    if f.sig.ident == "eq" && params.len() == 1 {
+        let sides = match e {
+            syn::Expr::Binary(b) if matches!(b.op, syn::BinOp::Eq(_)) => Some(((*b.left).clone(), (*b.right).clone())),
+            syn::Expr::MethodCall(m) if m.method == "eq" && m.args.len() == 1 => Some(((*m.receiver).clone(), m.args[0].clone())),
+            _ => None,
+        };
+        if let Some((l, r)) = sides {
+            if let (Some((a, va)), Some((b, vb))) = (digest_of(&l), digest_of(&r)) {
+                let mut xs = vec![a, b];
+                xs.sort();
+                let mut want = vec!["self".to_string(), params[0].clone()];
+                want.sort();
+                if xs == want && va == vb {
+                    return "sha256-digest-eq".into();
+                }
+            }
+        }
+    }
+    if f.sig.ident == "hash" && params.len() == 1 {
+        let (d, st) = match e {
+            syn::Expr::MethodCall(m) if m.method == "hash" && m.args.len() == 1 => (Some((*m.receiver).clone()), Some(m.args[0].clone())),
+            syn::Expr::Call(c) if canon(&c.func).ends_with("Hash::hash") && c.args.len() == 2 => (Some(c.args[0].clone()), Some(c.args[1].clone())),
+            _ => (None, None),
+        };
+        if let (Some(d), Some(st)) = (d, st) {
+            if let Some((x, _)) = digest_of(&d) {
+                if x == "self" && crate::mini::ident_of(crate::mini::strip_ref(&st)).as_deref() == Some(params[0].as_str()) {
+                    return "sha256-digest-hash".into();
+                }
+            }
+        }
+    }
+    String::new()
+}
+
 fn macro_def(file: &str, m: &syn::ItemMacro, name: &str) -> R<MacroDef> {
     // rules: ( matcher ) => { body } ;
     let toks: Vec<TokenTree> = m.mac.tokens.clone().into_iter().collect();
@@ -382,6 +472,7 @@ fn macro_def(file: &str, m: &syn::ItemMacro, name: &str) -> R<MacroDef> {
                                 body: String::new(),
                                 literals: vec![],
                                 mentions_self: false,
+                                shape: String::new(),
                             });
                             continue;
                         }
@@ -394,7 +485,12 @@ fn macro_def(file: &str, m: &syn::ItemMacro, name: &str) -> R<MacroDef> {
                                 literals_in(quote::ToTokens::to_token_stream(&f.block), &mut lits, &mut ms);
                             }
                         }
-                        def.impls.push(MacroImpl { trait_: tn, cfg: cfg_of(&im.attrs), body, literals: lits, mentions_self: ms });
+                        let fns: Vec<&syn::ImplItemFn> = im.items.iter().filter_map(|ii| if let syn::ImplItem::Fn(f) = ii { Some(f) } else { None }).collect();
+                        let shape = match fns.as_slice() {
+                            [f] => impl_shape(f),
+                            _ => String::new(),
+                        };
+                        def.impls.push(MacroImpl { trait_: tn, cfg: cfg_of(&im.attrs), body, literals: lits, mentions_self: ms, shape });
                     }
                 }
             }
@@ -423,9 +519,145 @@ fn strip_paren(e: &syn::Expr) -> &syn::Expr {
     }
 }
 
-pub fn random_len(file: &str, owner: &str, f: &syn::ImplItemFn) -> R<RandomLen> {
+/// how the bytes are produced and encoded: `stmts` then the tail `ENC.encode(v)`
+///   let v: Vec<u8> = (lo..hi).map(|_| SRC).collect();
+/// or the loop it stands for
+///   [let mut rng = thread_rng();]  let mut v: Vec<u8> = Vec::new() | Vec::with_capacity(..);
+///   for _ in lo..hi { v.push(SRC); }                  (`rng` is replaced by `thread_rng()` in SRC: the same generator)
+struct GenShape {
+    lo: String,
+    hi: String,
+    inclusive: bool,
+    ignores: bool,
+    src: String,
+    bty: String,
+    encoder: String,
+    method: String,
+    encodes_collected: bool,
+}
+
+fn gen_shape(file: &str, item: &str, shape: &str, stmts: &[&syn::Stmt], tail: &syn::Expr) -> R<GenShape> {
+    use crate::mini::{ident_of, strip};
+    let enc = match strip(tail) {
+        syn::Expr::MethodCall(m) if m.args.len() == 1 => m,
+        _ => return fail(file, item, shape),
+    };
+    let typed_let = |l: &syn::Local| -> Option<(String, String, bool, syn::Expr)> {
+        let (id, ty, is_mut) = match &l.pat {
+            syn::Pat::Type(pt) => match &*pt.pat {
+                syn::Pat::Ident(pi) => (pi.ident.to_string(), canon(&pt.ty), pi.mutability.is_some()),
+                _ => return None,
+            },
+            syn::Pat::Ident(pi) => (pi.ident.to_string(), String::new(), pi.mutability.is_some()),
+            _ => return None,
+        };
+        match &l.init {
+            Some(i) if i.diverge.is_none() => Some((id, ty, is_mut, (*i.expr).clone())),
+            _ => None,
+        }
+    };
+    let mut env = crate::mini::Env::default();
+    let mut vec_var: Option<(String, String)> = None;
+    let mut result: Option<GenShape> = None;
+    for st in stmts {
+        match st {
+            syn::Stmt::Local(l) => {
+                let (id, ty, is_mut, init) = match typed_let(l) {
+                    Some(x) => x,
+                    None => return fail(file, item, shape),
+                };
+                let ic = canon(&init);
+                if ic == "thread_rng()" || ic == "rand::thread_rng()" {
+                    // a handle to the thread-local generator: using it is using `thread_rng()`
+                    env.map.insert(id, init);
+                    continue;
+                }
+                if is_mut {
+                    // the byte vector of the loop form
+                    let empty = ic == "Vec::new()" || ic == "Vec::<u8>::new()" || ic == "vec![]" || ic.starts_with("Vec::with_capacity(") || ic.starts_with("Vec::<u8>::with_capacity(");
+                    let ty = if ty.is_empty() && ic.starts_with("Vec::<u8>::") { "Vec<u8>".to_string() } else { ty };
+                    if !empty || vec_var.is_some() || result.is_some() {
+                        return fail(file, item, shape);
+                    }
+                    vec_var = Some((id, ty));
+                    continue;
+                }
+                if result.is_some() || vec_var.is_some() {
+                    return fail(file, item, shape);
+                }
+                // init = (lo..hi).map(|_| SRC).collect()
+                let collect = method_call(&init, "collect").ok_or(()).or_else(|_| fail(file, item, shape))?;
+                if !collect.args.is_empty() {
+                    return fail(file, item, shape);
+                }
+                let map = method_call(&collect.receiver, "map").ok_or(()).or_else(|_| fail(file, item, shape))?;
+                let range = match strip_paren(&map.receiver) {
+                    syn::Expr::Range(r) => r,
+                    _ => return fail(file, item, shape),
+                };
+                let (lo, hi) = match (&range.start, &range.end) {
+                    (Some(a), Some(b)) => (canon(a), canon(b)),
+                    _ => return fail(file, item, shape),
+                };
+                let closure = match map.args.iter().collect::<Vec<_>>().as_slice() {
+                    [syn::Expr::Closure(c)] => (*c).clone(),
+                    _ => return fail(file, item, shape),
+                };
+                let ignores = closure.inputs.len() == 1 && matches!(closure.inputs[0], syn::Pat::Wild(_));
+                result = Some(GenShape {
+                    lo,
+                    hi,
+                    inclusive: matches!(range.limits, syn::RangeLimits::Closed(_)),
+                    ignores,
+                    src: canon(&env.resolve(&closure.body)),
+                    bty: ty,
+                    encoder: canon(&enc.receiver),
+                    method: enc.method.to_string(),
+                    encodes_collected: canon(&enc.args[0]) == id,
+                });
+            }
+            syn::Stmt::Expr(syn::Expr::ForLoop(fl), _) => {
+                let (v, vty) = match (&vec_var, &result) {
+                    (Some(v), None) => v.clone(),
+                    _ => return fail(file, item, shape),
+                };
+                let range = match strip_paren(&fl.expr) {
+                    syn::Expr::Range(r) => r,
+                    _ => return fail(file, item, shape),
+                };
+                let (lo, hi) = match (&range.start, &range.end) {
+                    (Some(a), Some(b)) => (canon(a), canon(b)),
+                    _ => return fail(file, item, shape),
+                };
+                // body: v.push(SRC);
+                let pushed = match fl.body.stmts.as_slice() {
+                    [syn::Stmt::Expr(syn::Expr::MethodCall(m), _)] if m.method == "push" && m.args.len() == 1 && ident_of(&m.receiver).as_deref() == Some(v.as_str()) => &m.args[0],
+                    _ => return fail(file, item, shape),
+                };
+                result = Some(GenShape {
+                    lo,
+                    hi,
+                    inclusive: matches!(range.limits, syn::RangeLimits::Closed(_)),
+                    ignores: matches!(&*fl.pat, syn::Pat::Wild(_)),
+                    src: canon(&env.resolve(pushed)),
+                    bty: vty,
+                    encoder: canon(&enc.receiver),
+                    method: enc.method.to_string(),
+                    encodes_collected: canon(&enc.args[0]) == v,
+                });
+            }
+            _ => return fail(file, item, shape),
+        }
+    }
+    match result {
+        Some(r) => Ok(r),
+        None => fail(file, item, shape),
+    }
+}
+
+pub fn random_len(file: &str, owner: &str, f: &syn::ImplItemFn, top: &syn::File) -> R<RandomLen> {
     let item = format!("{owner}::new_random_len");
-    let shape = "fn new_random_len(num_bytes: u32) -> T { assert!(..)?; let v: Vec<u8> = (0..num_bytes).map(|_| <byte source>).collect(); T::new(<ENCODER>.encode(v)) }";
+    let shape = "fn new_random_len(num_bytes: u32) -> T { assert!(..)?; let v: Vec<u8> = (0..num_bytes).map(|_| <byte source>).collect(); T::new(<ENCODER>.encode(v)) } (or the push loop it stands for; the generation may live in a private fn h(n) called as T::new(h(num_bytes)))";
     let (pname, ptype) = match f.sig.inputs.iter().collect::<Vec<_>>().as_slice() {
         [syn::FnArg::Typed(pt)] => match &*pt.pat {
             syn::Pat::Ident(pi) => (pi.ident.to_string(), canon(&pt.ty)),
@@ -433,81 +665,76 @@ pub fn random_len(file: &str, owner: &str, f: &syn::ImplItemFn) -> R<RandomLen> 
         },
         _ => return fail(file, &item, shape),
     };
-    let mut asserts = Vec::new();
-    let mut bound: Option<(String, String, &syn::Expr)> = None;
+    // assertions: as inclusive ranges over the positional parameter (`32<=p0<=96`), however spelt; otherwise their text
+    let asserts: Vec<String> = crate::mini::asserts_of(top, Some(owner), &f.sig, &f.block)
+        .iter()
+        .map(|e| match crate::mini::range_check(top, e) {
+            Some(r) => format!("{}<={}<={}", r.lo, r.subject, r.hi),
+            None => canon(e),
+        })
+        .collect();
+    let mut body: Vec<&syn::Stmt> = Vec::new();
     let mut tail: Option<&syn::Expr> = None;
     for (k, st) in f.block.stmts.iter().enumerate() {
         let last = k + 1 == f.block.stmts.len();
         match st {
-            syn::Stmt::Macro(m) if m.mac.path.is_ident("assert") => asserts.push(canon(&m.mac.tokens)),
-            syn::Stmt::Local(l) if bound.is_none() => {
-                let (id, ty) = match &l.pat {
-                    syn::Pat::Type(pt) => match &*pt.pat {
-                        syn::Pat::Ident(pi) => (pi.ident.to_string(), canon(&pt.ty)),
-                        _ => return fail(file, &item, shape),
-                    },
-                    _ => return fail(file, &item, shape),
-                };
-                let init = match &l.init {
-                    Some(i) if i.diverge.is_none() => &*i.expr,
-                    _ => return fail(file, &item, shape),
-                };
-                bound = Some((id, ty, init));
-            }
+            syn::Stmt::Macro(m) if m.mac.path.is_ident("assert") => {}
             syn::Stmt::Expr(e, None) if last => tail = Some(e),
-            _ => return fail(file, &item, shape),
+            other => body.push(other),
         }
     }
-    let (bid, bty, init) = match bound {
-        Some(b) => b,
-        None => return fail(file, &item, shape),
-    };
     let tail = match tail {
         Some(t) => t,
         None => return fail(file, &item, shape),
     };
-    // init = (lo..hi).map(|_| SRC).collect()
-    let collect = method_call(init, "collect").ok_or(()).or_else(|_| fail(file, &item, shape))?;
-    if !collect.args.is_empty() {
-        return fail(file, &item, shape);
-    }
-    let map = method_call(&collect.receiver, "map").ok_or(()).or_else(|_| fail(file, &item, shape))?;
-    let range = match strip_paren(&map.receiver) {
-        syn::Expr::Range(r) => r,
-        _ => return fail(file, &item, shape),
-    };
-    let (lo, hi) = match (&range.start, &range.end) {
-        (Some(a), Some(b)) => (canon(a), canon(b)),
-        _ => return fail(file, &item, shape),
-    };
-    let closure = match map.args.iter().collect::<Vec<_>>().as_slice() {
-        [syn::Expr::Closure(c)] => c,
-        _ => return fail(file, &item, shape),
-    };
-    let ignores = closure.inputs.len() == 1 && matches!(closure.inputs[0], syn::Pat::Wild(_));
-    let src = canon(&closure.body);
-    // tail = W::new(ENC.encode(bid))
+    // tail = W::new(X)
     let (wrapper, arg) = match tail {
         syn::Expr::Call(c) if c.args.len() == 1 => (canon(&c.func), &c.args[0]),
         _ => return fail(file, &item, shape),
     };
-    let enc = match arg {
-        syn::Expr::MethodCall(m) if m.args.len() == 1 => m,
-        _ => return fail(file, &item, shape),
+    // X = h(<count>) with h a private function of the file: its body produces the text
+    let mut g = None;
+    if let syn::Expr::Call(hc) = crate::mini::strip(arg) {
+        if let (Some(hn), 1) = (crate::mini::ident_of(&hc.func), hc.args.len()) {
+            if let Some(h) = crate::mini::free_fn(top, &hn) {
+                let hp = crate::mini::param_names(&h.sig);
+                if matches!(h.vis, syn::Visibility::Inherited) && hp.len() == 1 && h.sig.inputs.len() == 1 && body.is_empty() && canon(crate::mini::strip_ref(&hc.args[0])) == pname {
+                    let n = h.block.stmts.len();
+                    let htail = match h.block.stmts.last() {
+                        Some(syn::Stmt::Expr(e, None)) => e,
+                        _ => return fail(file, &item, shape),
+                    };
+                    let hbody: Vec<&syn::Stmt> = h.block.stmts[..n - 1].iter().collect();
+                    let mut gs = gen_shape(file, &item, shape, &hbody, htail)?;
+                    // the helper's parameter is this function's count parameter
+                    if gs.hi == hp[0] {
+                        gs.hi = pname.clone();
+                    }
+                    if gs.lo == hp[0] {
+                        gs.lo = pname.clone();
+                    }
+                    g = Some(gs);
+                }
+            }
+        }
+    }
+    let g = match g {
+        Some(g) => g,
+        None => gen_shape(file, &item, shape, &body, arg)?,
     };
     Ok(RandomLen {
         owner: owner.to_string(),
         count_param: pname,
         count_type: ptype,
-        range_lo: lo,
-        range_hi: hi,
-        range_inclusive: matches!(range.limits, syn::RangeLimits::Closed(_)),
-        closure_ignores_index: ignores,
-        byte_source: src,
-        collected_as: bty,
-        encoder: canon(&enc.receiver),
-        encode_method: enc.method.to_string(),
-        encodes_collected: canon(&enc.args[0]) == bid,
+        range_lo: g.lo,
+        range_hi: g.hi,
+        range_inclusive: g.inclusive,
+        closure_ignores_index: g.ignores,
+        byte_source: g.src,
+        collected_as: g.bty,
+        encoder: g.encoder,
+        encode_method: g.method,
+        encodes_collected: g.encodes_collected,
         wrapper,
         asserts,
     })
@@ -590,7 +817,7 @@ fn type_last_ident(t: &syn::Type) -> Option<String> {
     None
 }
 
-fn walk_items(file: &str, items: &[syn::Item], inv: &mut Inv) -> R<()> {
+fn walk_items(file: &str, items: &[syn::Item], inv: &mut Inv, top: &syn::File) -> R<()> {
     for it in items {
         match it {
             syn::Item::Mod(m) => {
@@ -598,7 +825,7 @@ fn walk_items(file: &str, items: &[syn::Item], inv: &mut Inv) -> R<()> {
                     continue;
                 }
                 if let Some((_, inner)) = &m.content {
-                    walk_items(file, inner, inv)?;
+                    walk_items(file, inner, inv, top)?;
                 }
             }
             syn::Item::Macro(m) => {
@@ -626,7 +853,7 @@ fn walk_items(file: &str, items: &[syn::Item], inv: &mut Inv) -> R<()> {
                         if let syn::ImplItem::Fn(f) = ii {
                             impl_fns.push(f.sig.ident.to_string());
                             if f.sig.ident == "new_random_len" {
-                                match random_len(file, &name, f) {
+                                match random_len(file, &name, f, top) {
                                     Ok(r) => inv.random_len.push(r),
                                     Err(e) => inv.soft_failures.push(e),
                                 }
@@ -741,7 +968,7 @@ fn walk_items(file: &str, items: &[syn::Item], inv: &mut Inv) -> R<()> {
                             inv.soft_failures.push(crate::Failure { file: file.to_string(), item: format!("impl {ty}"), expected: "`request` and `request_async` to be defined together".into() });
                         }
                         if let Some(f) = get("new_random_len") {
-                            match random_len(file, &ty, f) {
+                            match random_len(file, &ty, f, top) {
                                 Ok(r) => inv.random_len.push(r),
                                 Err(e) => inv.soft_failures.push(e),
                             }
@@ -758,7 +985,7 @@ fn walk_items(file: &str, items: &[syn::Item], inv: &mut Inv) -> R<()> {
 pub fn extract(srcs: &Sources) -> R<Inv> {
     let mut inv = Inv::default();
     for (name, f) in &srcs.files {
-        walk_items(name, &f.items, &mut inv)?;
+        walk_items(name, &f.items, &mut inv, f)?;
         let mut sm = StaticMut { file: name, out: &mut inv.static_mut };
         sm.visit_file(f);
     }
@@ -832,7 +1059,7 @@ pub fn to_lean(inv: &Inv) -> String {
         .collect();
     o.push_str(&format!("def newtypes : List NewType := {}\n\n", list_multiline(&nts, "  ")));
 
-    o.push_str("/-- a trait impl written inside one of the new-type macros (for the declared `$name`) -/\nstructure MacroImpl where\n  trait_ : String\n  cfg : Option String\n  body : String\n  literals : List String\n  mentionsSelf : Bool\nderiving DecidableEq, Repr\n\n");
+    o.push_str("/-- a trait impl written inside one of the new-type macros (for the declared `$name`) -/\nstructure MacroImpl where\n  trait_ : String\n  cfg : Option String\n  body : String\n  literals : List String\n  mentionsSelf : Bool\n  /-- \"sha256-digest-eq\" / \"sha256-digest-hash\" when the impl compares / hashes the SHA-256 digests of the wrapped values, empty otherwise -/\n  shape : String\nderiving DecidableEq, Repr\n\n");
     o.push_str("structure MacroDef where\n  name : String\n  structFields : List String\n  structDerives : List String\n  structCfgDerives : List (String × String)\n  inherentFns : List String\n  impls : List MacroImpl\nderiving DecidableEq, Repr\n\n");
     let mds: Vec<String> = inv
         .macros
@@ -843,12 +1070,13 @@ pub fn to_lean(inv: &Inv) -> String {
                 .iter()
                 .map(|i| {
                     format!(
-                        "{{ trait_ := {}, cfg := {}, body := {}, literals := {}, mentionsSelf := {} }}",
+                        "{{ trait_ := {}, cfg := {}, body := {}, literals := {}, mentionsSelf := {}, shape := {} }}",
                         s(&i.trait_),
                         opt_s(&i.cfg),
                         s(&i.body),
                         strs(&i.literals),
-                        b(i.mentions_self)
+                        b(i.mentions_self),
+                        s(&i.shape)
                     )
                 })
                 .collect();
